@@ -213,6 +213,28 @@ pub fn run_c13(case: &Case) -> Outcome {
     Outcome::pass((has_pending && partial) || local_err.is_some() || peer_aborted, cl)
 }
 
+/// directed family: a local side with 1 MiB, 16 MiB or 64 MiB + 64 KiB ready in buffer-sized chunks without a Pending point, then
+/// EOF; both constructors; a peer that only reads (nothing it does wakes the bridge again) or that also writes and half-closes
+pub const BURST: [usize; 3] = [(1 << 20) + 8192, 16 << 20, (64 << 20) + (64 << 10)];
+pub const BURST_CASES: u64 = 12;
+pub fn burst_case(i: u64) -> Case {
+    let total = BURST[(i % 3) as usize];
+    let plain = (i / 3) % 2 == 1;
+    let quiet_peer = i / 6 == 0;
+    let mut read = vec![LR::Chunk(8192); total / 8192];
+    read.push(LR::Eof);
+    let mut ends = [EndScript::default(), EndScript::default()];
+    ends[1] = EndScript { w: if quiet_peer { vec![] } else { vec![WOp::Write(5), WOp::Shutdown] }, r: vec![ROp::ToEof(1 << 20)] };
+    Case {
+        opts: [OptsSpec { rwnd: 8, thr: 4, ..OptsSpec::default() }, OptsSpec { rwnd: 8, thr: 2, ..OptsSpec::default() }],
+        streams: vec![StreamSpec { side: 0, port: 22, pad: vec![], delay: 0, park: None, ends }],
+        bridges: vec![BridgeSpec { stream: 0, end: 0, read, write: vec![], flush_err_at: None, shutdown: LS::Ok, plain }],
+        events: (1u8..=3).map(|n| RawEvent { when: Trigger::Quiescent, what: What::Wake(n) }).collect(),
+        step_bound: 2_000_000,
+        ..Case::default()
+    }
+}
+
 pub fn c13(ctx: &Ctx, rep: &mut Report) {
     rep.rule = "MuxStream::into_copy_bidirectional_with_buf (and, in a third of the cases, the default into_copy_bidirectional) over a scripted local AsyncBufRead+AsyncWrite: read half = chunks (1..20000 bytes; a directed family with 1 MiB / 16 MiB / 64 MiB ready at once), Pending until a harness event, Pending for ever, EOF or error at any position; write half = partial accepts, Pending points, error; flush/shutdown errors or delays; \
                 the peer end is a real application (data, shutdown, drop, late reader = credit starvation) on a second real endpoint, with generated options, link back-pressure and schedule. Oracle: content function in both directions (exactly the bytes, in order), C03 window rule for the bridge's Push frames, Finish on local EOF, local shutdown after the peer's Finish, \
@@ -222,30 +244,7 @@ pub fn c13(ctx: &Ctx, rep: &mut Report) {
     ctx.prop(rep, "bridge", ctx.tier.pick(60_000, 2_000_000), 300, || super::gens::with_keepalive(c13_case()), run_c13);
     // a local side that has a very large amount of data ready without a single Pending point (a fast producer): 1 MiB, 16 MiB and
     // 64 MiB + 64 KiB in buffer-sized chunks, then EOF; both constructors; the peer reads to end-of-stream and half-closes
-    const BURST: [usize; 3] = [(1 << 20) + 8192, 16 << 20, (64 << 20) + (64 << 10)];
-    ctx.enumerate(
-        rep,
-        "large-ready-burst",
-        (BURST.len() * 4) as u64,
-        2,
-        |i| {
-            let total = BURST[(i % 3) as usize];
-            let plain = (i / 3) % 2 == 1;
-            // a peer that only reads (nothing it does wakes the bridge again), or one that also writes and half-closes
-            let quiet_peer = i / 6 == 0;
-            let mut read = vec![LR::Chunk(8192); total / 8192];
-            read.push(LR::Eof);
-            let mut ends = [EndScript::default(), EndScript::default()];
-            ends[1] = EndScript { w: if quiet_peer { vec![] } else { vec![WOp::Write(5), WOp::Shutdown] }, r: vec![ROp::ToEof(1 << 20)] };
-            Case {
-                opts: [OptsSpec { rwnd: 8, thr: 4, ..OptsSpec::default() }, OptsSpec { rwnd: 8, thr: 2, ..OptsSpec::default() }],
-                streams: vec![StreamSpec { side: 0, port: 22, pad: vec![], delay: 0, park: None, ends }],
-                bridges: vec![BridgeSpec { stream: 0, end: 0, read, write: vec![], flush_err_at: None, shutdown: LS::Ok, plain }],
-                events: (1u8..=3).map(|n| RawEvent { when: Trigger::Quiescent, what: What::Wake(n) }).collect(),
-                step_bound: 2_000_000,
-                ..Case::default()
-            }
-        },
+    ctx.enumerate(rep, "large-ready-burst", BURST_CASES, 2, burst_case,
         |case| {
             let mut o = run_c13(case);
             o.classes.push("large-ready-burst");
